@@ -89,26 +89,41 @@ let handle = function
     let n = int_of_string i in
     let (log, disk) = after_effects s0.p_log s0.p_disk (take n fx) in
     let ((v, m), _) = recover ccrc (z_of_int 1) Z0 log disk in
-    let hyp = [hist_shape h; no_growth_in_ops h; no_copy_in_ops h; hist_range h; cfg_ok c] in
-    let dn = int_of_nat (done_items c s0 h (nat_of_int n)) in
-    let fl = int_of_nat (sync_floor (take dn h)) in
-    (* the state at open = what the recovery of the files found at open yields; prefix states are counted from it *)
-    let ((_, d_open), _) = recover ccrc (z_of_int 1) Z0 s0.p_log s0.p_disk in
-    let hi = min (dn + 1) (List.length h) in
-    let thm =
-      if not (List.for_all (fun b -> b) hyp) then "n/a"
-      else if v <> VOk then "fail-rc"
+    (* the theorem is about runs from a freshly opened store (empty log, empty buffer).  On a real trace it is evaluated
+       on the part of the history that follows the last checkpoint item after the last operation with an _onresize
+       call (after a checkpoint the model's state is again fresh: log and buffer empty), from the main file of that moment *)
+    let has_growth it = (match it with HOp evs -> List.exists (fun e -> match e with VResize _ -> true | _ -> false) evs | _ -> false) in
+    let idx = List.mapi (fun i it -> (i, it)) h in
+    let lastg = List.fold_left (fun a (i, it) -> if has_growth it then i else a) (-1) idx in
+    let cut = List.fold_left (fun a (i, it) -> match it with HCkpt _ when i > lastg && a < 0 -> i + 1 | _ -> a) (-1) idx in
+    let cut = if lastg < 0 && s0.p_log = [] then 0 else cut in
+    let rec drop n l = if n <= 0 then l else match l with [] -> [] | _ :: t -> drop (n - 1) t in
+    let (hyps, items, dn, fl, thm) =
+      if cut < 0 then ("-----", List.length h, 0, 0, "n/a-growth")
       else begin
-        let ok = ref false in
-        for k = fl to hi do
-          if not !ok then (match state_after d_open h (nat_of_int k) with Some mk when mk = m -> ok := true | _ -> ())
-        done;
-        if !ok then "ok" else "fail"
+        let (sc, fxc) = run c s0 (flat (take cut h)) in
+        let h' = drop cut h in
+        let n' = n - List.length fxc in
+        let hyp = [hist_shape h'; no_growth_in_ops h'; no_copy_in_ops h'; hist_range h'; cfg_ok c] in
+        let hs = String.concat "" (List.map (fun b -> if b then "1" else "0") hyp) in
+        if not (sc.p_log = [] && sc.p_buf = []) then (hs, List.length h', 0, 0, "n/a-not-fresh")
+        else if n' < 0 then (hs, List.length h', 0, 0, "n/a-before")
+        else if not (List.for_all (fun b -> b) hyp) then (hs, List.length h', 0, 0, "n/a-hyp")
+        else begin
+          let dn = int_of_nat (done_items c sc h' (nat_of_int n')) in
+          let fl = int_of_nat (sync_floor (take dn h')) in
+          let hi = min (dn + 1) (List.length h') in
+          let ok = ref false in
+          if v = VOk then
+            for k = fl to hi do
+              if not !ok then (match state_after sc.p_disk h' (nat_of_int k) with Some mk when mk = m -> ok := true | _ -> ())
+            done;
+          (hs, List.length h', dn, fl, if !ok then "ok" else "fail")
+        end
       end in
     Printf.sprintf "crash n=%d of=%d log=%d:%08x disk=%d:%08x rc=%s main=%d:%08x hyp=%s items=%d done=%d floor=%d thm=%s"
       n (List.length fx) (List.length log) (masked_crc log) (List.length disk) (zcrc_of_zlist disk) (vs v)
-      (List.length m) (zcrc_of_zlist m) (String.concat "" (List.map (fun b -> if b then "1" else "0") hyp))
-      (List.length h) dn fl thm
+      (List.length m) (zcrc_of_zlist m) hyps items dn fl thm
   | ["wal"; dir; crc; "ops"] ->
     (* decoding half only (Replay.replay_ops): verdict and applied-record trace *)
     let wal = read_file (dir ^ "/db-wal") in
